@@ -310,38 +310,55 @@ def unionFlagOk (d : Dir) (ms : List Ty) (nb : Bool) : Bool :=
 
 mutual
   /-- The validator: same kind at every node, member routines adequate for member annotations,
-      a `Delayed` node only where the annotation it actually resolves to is the member annotation.
-      `t` is wrapper-free (a `.wrap` is adequate for nothing). -/
-  def adequate (d : Dir) (env : Env) : Ty → Routine → Bool
-    | t, .delayed t' => Ty.beq (erase t') t
-    | .scalar s, .leaf s' => s == s'
-    | .none, .none => true
-    | .any, .noop => true
-    | .literal vs, .literal ws => litEq vs ws
-    | .enum c, .enumCast c' => c == c'
-    | .union ms, .union nb rs => unionFlagOk d ms nb && adequates d env (unionMembers d ms) rs
-    | .coll k e, .coll k' r => k == k' && adequate d env e r
-    | .tuple es, .tuple rs => adequates d env es rs
-    | .dict k v, .dict rk rv => adequate d env k rk && adequate d env v rv
-    | .cls c, .struct c' fs req => c == c' && structOk d env c req && adequateFields d env (fieldsOf env c) fs
-    | _, _ => false
-  termination_by structural _ r => r
-  def adequates (d : Dir) (env : Env) : List Ty → List Routine → Bool
-    | [], [] => true
-    | t :: ts, r :: rs => adequate d env t r && adequates d env ts rs
-    | _, _ => false
-  termination_by structural _ rs => rs
+      a `Delayed` node only where the annotation it actually resolves to is the member annotation
+      (and is an admissible target: `K`).  `t` is wrapper-free (a `.wrap` is adequate for nothing). -/
+  def adequate (d : Dir) (K : Ty → Bool) (env : Env) (t : Ty) : Routine → Bool
+    | .delayed t' => Ty.beq (erase t') t && K t
+    | .leaf s' => match t with | .scalar s => s == s' | _ => false
+    | .none => match t with | .none => true | _ => false
+    | .noop => match t with | .any => true | _ => false
+    | .literal ws => match t with | .literal vs => litEq vs ws | _ => false
+    | .enumCast c' => match t with | .enum c => c == c' | _ => false
+    | .union nb rs =>
+      match t with
+      | .union ms => unionFlagOk d ms nb && adequates d K env (unionMembers d ms) rs
+      | _ => false
+    | .coll k' r => match t with | .coll k e => k == k' && adequate d K env e r | _ => false
+    | .tuple rs => match t with | .tuple es => adequates d K env es rs | _ => false
+    | .dict rk rv =>
+      match t with
+      | .dict k v => adequate d K env k rk && adequate d K env v rv
+      | _ => false
+    | .struct c' fs req =>
+      match t with
+      | .cls c => c == c' && structOk d env c req && adequateFields d K env (fieldsOf env c) fs
+      | _ => false
+    | .unknown _ => false
+  termination_by structural r => r
+  def adequates (d : Dir) (K : Ty → Bool) (env : Env) (ts : List Ty) : List Routine → Bool
+    | [] => ts.isEmpty
+    | r :: rs =>
+      match ts with
+      | t :: ts' => adequate d K env t r && adequates d K env ts' rs
+      | [] => false
+  termination_by structural rs => rs
   /-- Exactly the class's field names, in `typing.get_type_hints` order, each routine adequate for
       that field's annotation. -/
-  def adequateFields (d : Dir) (env : Env) : List (Str × Ty) → List (Str × Routine) → Bool
-    | [], [] => true
-    | (a, t) :: ts, (b, r) :: rs => a == b && adequate d env t r && adequateFields d env ts rs
-    | _, _ => false
-  termination_by structural _ rs => rs
+  def adequateFields (d : Dir) (K : Ty → Bool) (env : Env) (ts : List (Str × Ty)) : List (Str × Routine) → Bool
+    | [] => ts.isEmpty
+    | (b, r) :: rs =>
+      match ts with
+      | (a, t) :: ts' => a == b && adequate d K env t r && adequateFields d K env ts' rs
+      | [] => false
+  termination_by structural rs => rs
 end
 
-def adequateU (env : Env) (t : Ty) (r : Routine) : Bool := adequate .u env t r
-def adequateM (env : Env) (t : Ty) (r : Routine) : Bool := adequate .m env t r
+def anyTarget (_ : Ty) : Bool := true
+
+/-- Validation of one tree; every delayed target is taken to be an annotation the library resolves
+    (`graphOk` below also validates the targets' own trees). -/
+def adequateU (env : Env) (t : Ty) (r : Routine) : Bool := adequate .u anyTarget env t r
+def adequateM (env : Env) (t : Ty) (r : Routine) : Bool := adequate .m anyTarget env t r
 
 /-! ### Routine graphs: the trees of a root annotation and of every `Delayed` target
 
@@ -355,31 +372,10 @@ def Routine.isDelayed : Routine → Bool
   | .delayed _ => true
   | _ => false
 
-mutual
-  /-- The delayed targets of a tree (erased). -/
-  def Routine.targets : Routine → List Ty
-    | .delayed t => [erase t]
-    | .union _ rs => Routine.targetsL rs
-    | .coll _ r => Routine.targets r
-    | .tuple rs => Routine.targetsL rs
-    | .dict a b => Routine.targets a ++ Routine.targets b
-    | .struct _ fs _ => Routine.targetsF fs
-    | _ => []
-  termination_by structural r => r
-  def Routine.targetsL : List Routine → List Ty
-    | [] => []
-    | r :: rs => Routine.targets r ++ Routine.targetsL rs
-  termination_by structural rs => rs
-  def Routine.targetsF : List (Str × Routine) → List Ty
-    | [] => []
-    | (_, r) :: rs => Routine.targets r ++ Routine.targetsF rs
-  termination_by structural rs => rs
-end
-
 def RGraph.hasKey (g : RGraph) (t : Ty) : Bool := g.any (fun e => Ty.beq e.1 t)
 
-/-- Every entry is a non-delayed tree adequate for its key, and every delayed target is a key. -/
+/-- Every entry is a non-delayed tree adequate for its key, every delayed target being a key. -/
 def graphOk (d : Dir) (env : Env) (g : RGraph) : Bool :=
-  g.all (fun e => !e.2.isDelayed && adequate d env e.1 e.2 && e.2.targets.all g.hasKey)
+  g.all (fun e => !e.2.isDelayed && adequate d g.hasKey env e.1 e.2)
 
 end Typelib
